@@ -105,6 +105,7 @@ type Op struct {
 	Remainder    bool      `json:"remainder,omitempty"`     // import the logs the destination does not have yet
 	ImportOrder  []int     `json:"import_order,omitempty"`  // import exactly the logs with these ids, in this order
 	ImportRehash bool      `json:"import_rehash,omitempty"` // ... with hashes recomputed so that they chain in stream order
+	ImportSubst  [2]string `json:"import_subst,omitempty"`  // replace the first occurrence of [0] by [1] in the stream, then rehash
 	Raw          *Request  `json:"raw,omitempty"`
 	Capture      string    `json:"capture,omitempty"` // raw admin requests: remember data.id under this name ("reset": mark a reset)
 	SleepMs      int       `json:"sleep_ms,omitempty"`
@@ -362,6 +363,9 @@ func (o *Op) Render(exports map[string]string) Request {
 	case KImport:
 		r.Path = prefix + "/logs/import"
 		r.Body = filterExport(exports[o.From], o.ImportFrom, o.ImportTo)
+		if o.ImportSubst[0] != "" {
+			r.Body = rehashExport(strings.Replace(r.Body, o.ImportSubst[0], o.ImportSubst[1], 1))
+		}
 		if len(o.ImportOrder) > 0 {
 			r.Body = permuteExport(exports[o.From], o.ImportOrder)
 			if o.ImportRehash {
